@@ -212,9 +212,165 @@ def c05_make_scaler(kind):
   return scale
 
 
+# Functors (drv_functor_copies): a copy of a functor must be CALLABLE like the
+# original.  One signature family (a, b=<default>) in every way a functor class
+# can be made, one with *args / keyword-only / **kwargs, one that holds a functor.
+
+
+@pg.functor
+def c05_add(a, b=1):
+  return a + b
+
+
+@pg.symbolize
+def c05_mul(a, b=2):
+  return a * b
+
+
+@pg.functor([('a', pg.typing.Int()), ('b', pg.typing.Int(default=1))],
+            returns=pg.typing.Int(max_value=10))
+def c05_add_typed(a, b=1):
+  return a + b
+
+
+@pg.functor
+def c05_collect(a, *args, k=0, **kwargs):
+  return (a, tuple(args), k, tuple(sorted(kwargs.items())))
+
+
+class C05AddF(pg.Functor):
+  a: typing.Any
+  b: typing.Any = 1
+
+  def _call(self):
+    return self.a + self.b
+
+
+class C05ScaleF(C05AddF):
+  s: int = 10
+
+  def _call(self):
+    return (self.a + self.b) * self.s
+
+
+@pg.functor
+def c05_apply(fn, x=2):
+  return ('applied', c05_call(fn), x)
+
+
+# Values whose behaviour rests on state that is derived from (not held in) their
+# symbolic fields (drv_stateful_copies).
+
+
+@pg.symbolize
+class C05Acc:
+  """A plain class made symbolic: its state is set up by its own __init__."""
+
+  def __init__(self, start, step=1, *, scale=1):
+    self.start = start
+    self.step = step
+    self.scale = scale
+    self.total = start * scale
+
+  def bump(self, n=1):
+    return self.total + n * self.step
+
+
+class C05Derived(pg.Object):
+  """State derived when the object is bound / re-derived when it changes."""
+  x: int
+  y: int = 2
+  items: pg.typing.List(pg.typing.Int()) = []
+
+  def _on_bound(self):
+    super()._on_bound()
+    self._prod = self.x * self.y + sum(self.items)
+
+  def prod(self):
+    return self._prod
+
+
+@pg.compound(C05Leaf)
+def c05_leaf_of(n, m=1):
+  return C05Leaf([n + m, m])
+
+
+_C05_SPACE = []
+
+
+def c05_bound_dna(values, history=''):
+  """A DNA bound to a search space, with user data / metadata attached."""
+  if not _C05_SPACE:
+    _C05_SPACE.append(pg.dna_spec(pg.Dict(x=pg.oneof([1, pg.oneof(['a', 'b'])]), y=pg.floatv(0.0, 1.0),
+                                          z=pg.manyof(2, [1, 2, 3]))))
+  d = pg.DNA(values)
+  d.use_spec(_C05_SPACE[0])
+  if 'u' in history:
+    d.set_userdata('keep', [1, 2], cloneable=True)
+  if 'n' in history:
+    d.set_userdata('drop', 'x')
+  if 'c' in history:
+    d.children[0].set_userdata('keep', {'k': 1}, cloneable=True)
+  if 'm' in history:
+    d.set_metadata('mk', 1, cloneable=True)
+  if 'q' in history:
+    d.set_metadata('mq', 2)
+  return d
+
+
+def c05_dna_view(d):
+  """What a bound DNA shows through its spec + the user data that copies keep."""
+  def keep(n):          # ('keep' is the one key c05_bound_dna marks cloneable.)
+    return repr(n.userdata['keep']) if 'keep' in n.userdata else None
+  nodes = [n for n in sym_nodes(d) if isinstance(n, pg.DNA)]
+  return dict(
+      bound=[n.spec is not None for n in nodes],
+      numbers=outcome(d.to_numbers), by_name=outcome(lambda: sorted(
+          (str(k), repr(v)) for k, v in d.to_dict(value_type='value').items())),
+      literal=outcome(lambda: sorted((str(k), repr(v)) for k, v in d.to_dict(value_type='literal').items())),
+      userdata=[keep(n) for n in nodes])
+
+
+def c05_del(f, name):
+  """`del f.<name>` as an expression (discards a bound argument)."""
+  delattr(f, name)
+  return f
+
+
+def c05_functors(v):
+  """Every functor of the tree `v`, in traversal order."""
+  return [n for n in sym_nodes(v) if isinstance(n, pg.Functor)]
+
+
+def c05_call(f, *args, **kwargs):
+  """('ok', result) / ('exc', name of the exception class)."""
+  try:
+    return ('ok', f(*args, **kwargs))
+  except Exception as e:  # pylint: disable=broad-except
+    return ('exc', type(e).__name__)
+
+
+_ARG_SETS = ('specified_args', 'non_default_args', 'default_args', 'bound_args',
+             'unbound_args', 'is_fully_bound')
+
+
+def c05_arg_sets(f):
+  out = {}
+  for a in _ARG_SETS:
+    try:
+      x = getattr(f, a)
+      out[a] = sorted(x) if isinstance(x, (set, frozenset)) else x
+    except Exception as e:  # pylint: disable=broad-except
+      out[a] = f'<{type(e).__name__}>'
+  return out
+
+
 _ENV = dict(
     pg=pg, T=pg.typing, typing=typing, datetime=datetime, math=math, pathlib=pathlib,
     functools=functools,
+    c05_add=c05_add, c05_mul=c05_mul, c05_add_typed=c05_add_typed, c05_collect=c05_collect,
+    C05AddF=C05AddF, C05ScaleF=C05ScaleF, c05_apply=c05_apply, c05_del=c05_del,
+    C05Acc=C05Acc, C05Derived=C05Derived, c05_leaf_of=c05_leaf_of, c05_bound_dna=c05_bound_dna,
     C05Leaf=C05Leaf, C05Typed=C05Typed, C05Pair=C05Pair, C05Tup=C05Tup,
     C05HideD=C05HideD, C05HideA=C05HideA, C05HideS=C05HideS, c05_hide=c05_hide, C05Unserializable=C05Unserializable,
     C05BadRepr=C05BadRepr, C05_MODULE_LAMBDAS=C05_MODULE_LAMBDAS,
@@ -3001,10 +3157,505 @@ def drv_pickle_deepcopy(tier, seed):
   return rec.result()
 
 
+# -----------------------------------------------------------------------------
+# Functors: a copy must be callable like the original.
+# -----------------------------------------------------------------------------
+#
+# "... yields a value that ... has the same type, hash and schema-backed
+# behaviour ...; the same holds for ... pickling and for copy.deepcopy."  What a
+# functor DOES is what happens when it is called: which arguments it has bound,
+# which it lets a call bind / override, what it does with arguments it does not
+# know.  None of this is visible to pg.eq / pg.hash (the construction-time flags
+# and the specified / defaulted bookkeeping are not symbolic fields), so the
+# oracle is differential: every probe call and every argument-set property gives
+# the same outcome (result, or class of the exception) on the copy as on the
+# original -- also after the same late binding has been applied to both.
+
+# kind -> (class of functor, constructor, its Python-level signature, bindings)
+_SIG_AB = dict(pos=['a', 'b'], defaults=['b'], kwonly=[], varargs=False, varkw=False)
+_BIND_AB = ['', '1', '1, 2', '1, 1', 'b=3']
+FUNCTOR_KINDS = {
+    'pg.functor': ('fn-functor', 'c05_add', _SIG_AB, _BIND_AB),
+    'pg.symbolize': ('fn-functor', 'c05_mul', _SIG_AB, _BIND_AB),
+    'pg.functor-with-arg-specs-and-returns': ('fn-functor', 'c05_add_typed', _SIG_AB, _BIND_AB),
+    'varargs-kwonly-varkw': ('fn-functor', 'c05_collect',
+                             dict(pos=['a'], defaults=['k'], kwonly=['k'], varargs=True, varkw=True),
+                             ['', '1', '1, 2, 3', '1, k=5', '1, z=9', 'k=0']),
+    'pg.Functor-subclass': ('subclassed-functor', 'C05AddF', _SIG_AB, _BIND_AB),
+    'subclass-of-a-subclass': ('subclassed-functor', 'C05ScaleF',
+                               dict(pos=['a', 'b', 's'], defaults=['b', 's'], kwonly=[], varargs=False,
+                                    varkw=False),
+                               ['1', '1, 2, 3', '1, s=10', 's=2']),
+}
+_APPLY_SIG = dict(pos=['fn', 'x'], defaults=['x'], kwonly=[], varargs=False, varkw=False)
+
+FUNCTOR_FLAGS = [(False, False), (True, False), (False, True), (True, True)]
+
+# what was done to the functor between its construction and the copy.
+FUNCTOR_HISTORIES = [
+    ('', '{e}'),
+    ('rebind-defaulted-arg', '{e}.rebind({d}=5)'),
+    ('rebind-arg-to-its-default', '{e}.rebind({d}={dv}, raise_on_no_change=False)'),
+    ('del-bound-arg', "c05_del({e}, '{d}')"),
+    ('unbind-arg', "{e}.rebind({p}=pg.MISSING_VALUE, raise_on_no_change=False)"),
+    ('sealed', '{e}.seal()'),
+]
+_DEFAULT_OF = {'c05_add': ('b', 1), 'c05_mul': ('b', 2), 'c05_add_typed': ('b', 1),
+               'c05_collect': ('k', 0), 'C05AddF': ('b', 1), 'C05ScaleF': ('s', 10)}
+
+# (name, template, meta of a functor of the holder itself that comes first)
+FUNCTOR_HOLDERS = [
+    ('stand-alone', '{e}', None),
+    ('dict', 'pg.Dict(f={e})', None),
+    ('list', 'pg.List([0, {e}])', None),
+    ('object', 'C05Leaf({e})', None),
+    ('dict-list', "pg.Dict(steps=[{e}], name='pipeline')", None),
+    ('object-dict-tuple', "C05Pair(1, right={{'k': ({e}, 2)}})", None),
+    ('typed-callable-field', 'C05Typed(i=1, c={e})', None),
+    ('argument-of-a-functor', 'c05_apply({e})', (False, False)),
+    ('argument-of-a-flagged-functor', 'pg.List([c05_apply({e}, 3, override_args=True)])', (True, False)),
+    ('argument-of-a-flagged-functor', 'c05_apply({e}, ignore_extra_args=True)', (False, True)),
+]
+
+_J = {k: '\n'.join(_FORMS[k]).format(kw='', lkw='') for k in ('obj', 'str', 'save-load', 'open_jsonl')}
+# (family, method, code, is the copy a deep one)
+FUNCTOR_COPIES = [
+    ('deepcopy', 'copy.deepcopy', 'r = copy.deepcopy(v)', True),
+    ('clone', 'copy.copy', 'r = copy.copy(v)', False),
+    ('clone', 'pg.clone', 'r = pg.clone(v)', False),
+    ('clone', 'pg.clone-deep', 'r = pg.clone(v, deep=True)', True),
+    ('clone', 'v.clone', 'r = v.clone()', False),
+    ('clone', 'v.clone-deep', 'r = v.clone(deep=True)', True),
+    ('pickle', 'pickle', 'r = pickle.loads(pickle.dumps(v))', True),
+    ('pickle', 'pickle-protocol-2', 'r = pickle.loads(pickle.dumps(v, protocol=2))', True),
+    ('json', 'to_json/from_json', _J['obj'], True),
+    ('json', 'to_json_str/from_json_str', _J['str'], True),
+    ('json', 'pg.save/pg.load', _J['save-load'], True),
+    ('json', 'record-of-a-jsonl-file', _J['open_jsonl'], True),
+    # writer option that leaves out what equals the default (the loader puts it back).
+    ('json-hide-defaults', 'to_json(hide_default_values=True)',
+     'r = pg.from_json(pg.to_json(v, hide_default_values=True))', True),
+    ('json-hide-defaults', 'to_json_str(hide_default_values=True)',
+     'r = pg.from_json_str(pg.to_json_str(v, hide_default_values=True))', True),
+]
+
+
+def _flag_src(flags):
+  return ', '.join(f'{n}=True' for n, on in zip(('override_args', 'ignore_extra_args'), flags) if on)
+
+
+def _functor_src(ctor, binding, flags):
+  return f"{ctor}({', '.join(x for x in (binding, _flag_src(flags)) if x)})"
+
+
+def _probe_calls(sig, tier):
+  """[(args, kwargs)]: the call shapes tried on original and copy."""
+  pos = sig['pos']
+  cand = [(pos[0], 2)] + [(d, 3) for d in sig['defaults'][:1]] + [('zz', 9)]
+  if len(sig['defaults']) > 1:
+    cand.append((sig['defaults'][1], 4))
+  subsets = [c for n in range(len(cand) + 1) for c in itertools.combinations(cand, n)
+             if tier == 'thorough' or n <= 1 or n == len(cand)]
+  calls = []
+  for n in range(len(pos) + 2):
+    for kws in subsets:
+      calls.append((tuple(range(5, 5 + n)), dict(kws)))
+  # a value the argument / return specs refuse, where there are any.
+  calls += [((), {pos[0]: 'x'}), ((9,), {}), ((), {sig['defaults'][0]: 9.5})]
+  # the flags given with the call itself take precedence over the functor's.
+  for args, kw in [((5,), {}), ((), {sig['defaults'][0]: 3}), ((), {'zz': 9}),
+                   (tuple(range(5, 6 + len(pos))), {}), ((5,), {'zz': 9})]:
+    for flag in ('override_args', 'ignore_extra_args'):
+      for on in (True, False):
+        calls.append((args, dict(kw, **{flag: on})))
+    if tier == 'thorough':
+      for ov in (True, False):
+        for ig in (True, False):
+          calls.append((args, dict(kw, override_args=ov, ignore_extra_args=ig)))
+  return calls
+
+
+def _call_class(sig, specified, flags, args, kw):
+  """Names the input class of a call (never decides its outcome)."""
+  kw = dict(kw)
+  ov = kw.pop('override_args', None)
+  ig = kw.pop('ignore_extra_args', None)
+  names = set(sig['pos']) | set(sig['kwonly'])
+  supplied = list(sig['pos'][:len(args)]) + list(kw)
+  classes = set()
+  if (len(args) > len(sig['pos']) and not sig['varargs']) or any(
+      k not in names and not sig['varkw'] for k in kw):
+    classes.add('extra-args[ignore_extra_args=%s]' % (
+        f'{flags[1]}@ctor' if ig is None else f'{ig}@call'))
+  if len(set(supplied)) != len(supplied):
+    classes.add('multiple-values')
+  bound = False
+  for n in set(supplied):
+    if n not in names:
+      continue
+    if n in specified:
+      bound = True
+    elif n in sig['defaults']:
+      classes.add('sets-defaulted-arg')
+    else:
+      classes.add('binds-unbound-arg')
+  if bound:
+    classes.add('overrides-bound-arg[override_args=%s]' % (
+        f'{flags[0]}@ctor' if ov is None else f'{ov}@call'))
+  elif ov is not None:
+    classes.add('override_args@call-without-bound-arg')
+  if ig is not None and not any(c.startswith('extra') for c in classes):
+    classes.add('ignore_extra_args@call-without-extra-arg')
+  return '+'.join(sorted(classes)) or 'no-arguments'
+
+
+def _lit_call(args, kw):
+  return ', '.join([repr(a) for a in args] + [f'{k}={v!r}' for k, v in kw.items()])
+
+
+def functor_universe(tier, seed):
+  """[(src, holder, [(kclass, sig, flags) per functor in traversal order], label)]."""
+  r = rng(seed, 'c05-functors')
+  out = []
+  base = []
+  for kind, (kclass, ctor, sig, bindings) in FUNCTOR_KINDS.items():
+    d, dv = _DEFAULT_OF[ctor]
+    for bi, binding in enumerate(bindings):
+      for flags in FUNCTOR_FLAGS:
+        e = _functor_src(ctor, binding, flags)
+        for hi, (hname, tpl) in enumerate(FUNCTOR_HISTORIES):
+          if hname and tier != 'thorough' and (bi + hi + FUNCTOR_FLAGS.index(flags)) % 3:
+            continue
+          src = tpl.format(e=e, d=d, dv=dv, p=sig['pos'][0])
+          if not constructible(src):
+            continue
+          base.append((src, (kclass, sig, flags), f'{kind}|{hname or "as-constructed"}'))
+  for src, meta, label in base:
+    out.append((src, 'stand-alone', [meta], label))
+  nested = [b for b in base if b[2].endswith('as-constructed')]
+  for hi, (hname, tpl, outer) in enumerate(FUNCTOR_HOLDERS[1:]):
+    # every flag combination below every holder; kinds / bindings in rotation.
+    by_flags = {}
+    for b in nested:
+      by_flags.setdefault(b[1][2], []).append(b)
+    for flags, bs in by_flags.items():
+      picks = bs if tier == 'thorough' else r.sample(bs, 3)
+      for src, meta, label in picks:
+        metas = ([('fn-functor', _APPLY_SIG, outer)] if outer is not None else []) + [meta]
+        out.append((tpl.format(e=src), hname, metas, label))
+  return out
+
+
+def _isolated_probes(sig, specified, flags):
+  """[(id suffix, args, kwargs)]: calls that each depend on ONE piece of the
+  functor's call behaviour (given the argument sets of the original)."""
+  names = sig['pos'] + sig['kwonly']
+  fill = {n: 1 for n in names if n not in sig['defaults'] and n not in specified}
+  probes = [('call/as-bound', (), {}), ('call/binding-the-unbound-args', (), dict(fill))]
+  free = [d for d in sig['defaults'] if d not in specified]
+  if free:
+    probes.append(('call/setting-a-defaulted-arg', (), dict(fill, **{free[0]: 3})))
+  bound = [n for n in names if n in specified]
+  if bound:
+    probes.append((f'override_args={flags[0]}/call-overriding-a-bound-arg', (), dict(fill, **{bound[0]: 2})))
+  probes.append((('call/keyword-for-**kwargs' if sig['varkw'] else
+                  f'ignore_extra_args={flags[1]}/call-with-unknown-keyword'), (), dict(fill, zz=9)))
+  # (override_args=True given with the call: bound arguments do not matter here.)
+  probes.append((('call/positionals-for-*args' if sig['varargs'] else
+                  f'ignore_extra_args={flags[1]}/call-with-surplus-positional'),
+                 tuple(range(1, 2 + len(sig['pos']))), dict(override_args=True)))
+  return probes
+
+
+def drv_functor_copies(tier, seed):
+  rec = Recorder(
+      'C05', 'copies of functors (deepcopy, clone, pickle, JSON, save/load) are callable like the original',
+      scope='6 functor classes (pg.functor, pg.symbolize, arg specs + returns, *args/kw-only/**kwargs, '
+            'pg.Functor subclass, subclass of a subclass) x 4-6 bindings (none, partial, full, explicit default, '
+            'defaulted only) x override_args/ignore_extra_args in all 4 combinations x histories (as constructed, '
+            'rebind, rebind to default, del, unbind, sealed; quick: a third of the non-trivial ones); stand-alone and '
+            'below 9 holders (Dict, List, Object, Dict>List, Object>dict>tuple, typed Callable field, argument of a '
+            'plain / flagged functor; quick: 3 seeded functors per flag combination and holder); 14 ways to copy '
+            '(copy.deepcopy, copy.copy, pg.clone / v.clone shallow+deep, pickle default + protocol 2, to_json/'
+            'from_json, string form, pg.save/pg.load on /mem, jsonl record, object and string form with '
+            'hide_default_values=True; quick: histories and nested ones use one '
+            'way per family in rotation); oracle (differential, original vs copy, per functor of the tree): exact '
+            'class, pg.eq/pg.hash, well-formed tree, 6 argument-set properties, outcome (result or exception class) '
+            'of 6 isolated probe calls (as bound, binding the unbound, setting a defaulted arg, overriding a bound '
+            'arg, unknown keyword, surplus positional) and -- where those agree -- of every call in 0..n+1 '
+            'positionals x subsets (quick: size<=1 and the full set) of {first arg, defaulted args, unknown keyword} + refused '
+            'values + call-time override_args/ignore_extra_args (quick: for a quarter of the copies); fields unchanged by the calls; deep copies (quick: a third of them): the '
+            'same late binding applied to copy and to a fresh original is accepted alike, gives the same argument '
+            'sets and probe outcomes and leaves the copied-from original untouched (JSON does not carry `sealed`: '
+            'no late binding on sealed originals there)')
+  uni = functor_universe(tier, seed)
+  probe_cache = {}
+  for ui, (src, holder, metas, label) in enumerate(uni):
+    head = f'import copy, pickle\n{_header("C05")}v = {src}\n'
+    where = 'root' if holder == 'stand-alone' else f'below {holder}'
+    try:
+      v = ev(src)
+      fos = c05_functors(v)
+      assert len(fos) == len(metas), f'{len(fos)} functors found, {len(metas)} expected'
+      fresh = ev(src)
+      sets0 = [c05_arg_sets(f) for f in fos]
+      iso, iso_out, orig_out = [], [], []
+      for fo, s0, (kclass, sig, flags) in zip(fos, sets0, metas):
+        if id(sig) not in probe_cache:
+          probe_cache[id(sig)] = _probe_calls(sig, tier)
+        orig_out.append(None)      # (filled in when first needed.)
+        iso.append(_isolated_probes(sig, set(s0['specified_args']), flags))
+        iso_out.append([c05_call(fo, *a, **k) for _, a, k in iso[-1]])
+    except Exception as e:  # pylint: disable=broad-except
+      rec.case('harness/functor-universe', src, False, f'{type(e).__name__}: {e}', head)
+      continue
+    copies = FUNCTOR_COPIES
+    if tier != 'thorough' and (holder != 'stand-alone' or not label.endswith('as-constructed')):
+      copies = [[c for c in FUNCTOR_COPIES if c[0] == fam]
+                for fam in ('deepcopy', 'clone', 'pickle', 'json', 'json-hide-defaults')]
+      copies = [cs[ui % len(cs)] for cs in copies]
+    for mi, (family, method, code, deep) in enumerate(copies):
+      key = (src, method)
+      wit = head + code + '\n'
+      env = dict(_ENV, v=v, copy=copy, pickle=pickle)
+      # quick: the many-shapes calls for a quarter, the late binding for a third of the copies.
+      broad = tier == 'thorough' or (ui + mi) % 4 == 0
+      late = deep and (tier == 'thorough' or (ui + mi // 3) % 3 == 0)
+      try:
+        exec(code, env)  # pylint: disable=exec-used
+        r = env['r']
+      except Exception as e:  # pylint: disable=broad-except
+        rec.case(f'functor-copy/{family}/copy-is-made', key, False, f'{type(e).__name__}: {e}', wit)
+        continue
+      fcs = c05_functors(r)
+      d = diff_value(v, r)
+      ok = rec.case(f'functor-copy/{family}/value', key,
+                    not d and len(fcs) == len(fos) and all(type(a) is type(b) for a, b in zip(fos, fcs)),
+                    d or f'functors {[type(f).__name__ for f in fos]} -> {[type(f).__name__ for f in fcs]}',
+                    wit + 'assert_same(v, r)\n')
+      if not ok:
+        continue
+      same = outcome(pg.eq, v, r) == ('ok', True) and outcome(pg.hash, v) == outcome(pg.hash, r)
+      rec.case(f'functor-copy/{family}/eq-hash', key, same, 'pg.eq(v, r) is not True or pg.hash differs',
+               wit + 'assert pg.eq(v, r) and pg.hash(v) == pg.hash(r)\n')
+      te = tree_errors(r)
+      rec.case(f'functor-copy/{family}/well-formed-tree', key, not te, '; '.join(te[:3]),
+               wit + 'assert_wellformed(r)\n')
+      if deep:
+        rec.case(f'functor-copy/{family}/no-shared-functor', key,
+                 not ({id(f) for f in fos} & {id(f) for f in fcs}), 'the copy holds a functor of the original',
+                 wit + 'assert not ({id(f) for f in c05_functors(v)} & {id(f) for f in c05_functors(r)})\n')
+      agree = []
+      for i, (fo, fc, (kclass, sig, flags)) in enumerate(zip(fos, fcs, metas)):
+        pick = f'fo, fc = c05_functors(v)[{i}], c05_functors(r)[{i}]\n'
+        pre = f'functor-copy/{family}/{kclass}'
+        ctx = f'[{where}; {label}; (override_args, ignore_extra_args)={flags}]'
+        sc = c05_arg_sets(fc)
+        bad = [a for a in _ARG_SETS if sets0[i][a] != sc[a]]
+        all_ok = rec.case(f'{pre}/argument-sets', key + (i,), not bad,
+                          f'{ctx} ' + '; '.join(f'{a}: {sets0[i][a]!r} -> {sc[a]!r}' for a in bad),
+                          wit + pick + 'assert c05_arg_sets(fo) == c05_arg_sets(fc), '
+                          '(c05_arg_sets(fo), c05_arg_sets(fc))\n')
+        for (name, args, kw), want in zip(iso[i], iso_out[i]):
+          got = c05_call(fc, *args, **kw)
+          if got == want:
+            rec.case(f'{pre}/{name}', key + (i,), True)
+            continue
+          all_ok = False
+          lit = _lit_call(args, kw)
+          rec.case(f'{pre}/{name}', key + (i,), False, f'{ctx} f({lit}): original {want!r}, copy {got!r}',
+                   wit + pick + f'a, b = c05_call(fo, {lit}), c05_call(fc, {lit})\nassert a == b, (a, b)\n')
+        agree.append(all_ok)
+        if all_ok and broad:
+          # every other call shape (the isolated probes agree: anything that
+          # differs here is something else).
+          specified = set(sets0[i]['specified_args'])
+          if orig_out[i] is None:
+            orig_out[i] = [c05_call(fo, *a, **k) for a, k in probe_cache[id(sig)]]
+          for ci, ((args, kw), want) in enumerate(zip(probe_cache[id(sig)], orig_out[i])):
+            got = c05_call(fc, *args, **kw)
+            if got == want:
+              rec.case(f'{pre}/call/any-other-shape', key + (i, ci), True)
+              continue
+            lit = _lit_call(args, kw)
+            rec.case(f'{pre}/call/{_call_class(sig, specified, flags, args, kw)}', key + (i, ci), False,
+                     f'{ctx} f({lit}): original {want!r}, copy {got!r}',
+                     wit + pick + f'a, b = c05_call(fo, {lit}), c05_call(fc, {lit})\nassert a == b, (a, b)\n')
+        d = diff_value(fo, fc)
+        rec.case(f'{pre}/fields-after-the-calls', key + (i,), not d, d,
+                 wit + pick + f'for f in (fo, fc):\n  c05_call(f, 5, 6)\n  c05_call(f, {sig["defaults"][0]}=3)\n'
+                 'assert_same(fo, fc)\n')
+      if not late:
+        continue          # (a shallow copy may share what it holds: no writes through it.)
+      # the same late binding on the copy and on a fresh original.
+      try:
+        w = ev(src)
+        fws = c05_functors(w)
+      except Exception as e:  # pylint: disable=broad-except
+        rec.case('harness/functor-universe', src, False, f'{type(e).__name__}: {e}', head)
+        continue
+      for i, (fw, fc, (kclass, sig, flags)) in enumerate(zip(fws, fcs, metas)):
+        pre = f'functor-copy/{family}/{kclass}'
+        ctx = f'[{where}; {label}; (override_args, ignore_extra_args)={flags}]'
+        d0 = sig['defaults'][0]
+        bind = f'rebind({d0}=7)'
+        pick = (f'w = {src}\nfw, fc = c05_functors(w)[{i}], c05_functors(r)[{i}]\n'
+                f'a, b = outcome(fw.rebind, {d0}=7)[0], outcome(fc.rebind, {d0}=7)[0]\n')
+        ow = outcome(fw.rebind, **{d0: 7})
+        if family.startswith('json') and ow[0] == 'exc':
+          continue
+        oc = outcome(fc.rebind, **{d0: 7})
+        ok = ow[0] == oc[0] and (ow[0] == 'ok' or ow[1] is oc[1])
+        rec.case(f'{pre}/late-binding/accepted-alike', key + (i,), ok,
+                 '' if ok else f'{ctx} {bind}: original {ow!r}, copy {oc!r}',
+                 wit + pick + 'assert a == b, (a, b)\n')
+        if not ok or not agree[i]:
+          continue
+        sw, sc = c05_arg_sets(fw), c05_arg_sets(fc)
+        bad = [a for a in _ARG_SETS if sw[a] != sc[a]]
+        rec.case(f'{pre}/late-binding/argument-sets', key + (i,), not bad,
+                 f'{ctx} after {bind}: ' + '; '.join(f'{a}: {sw[a]!r} -> {sc[a]!r}' for a in bad),
+                 wit + pick + 'assert c05_arg_sets(fw) == c05_arg_sets(fc), (c05_arg_sets(fw), c05_arg_sets(fc))\n')
+        if bad:
+          continue
+        for name, args, kw in _isolated_probes(sig, set(sw['specified_args']), flags):
+          a, b = c05_call(fw, *args, **kw), c05_call(fc, *args, **kw)
+          lit = _lit_call(args, kw)
+          rec.case(f'{pre}/{name}', key + (i, 'after-late-binding'), a == b,
+                   f'{ctx} after {bind}: f({lit}): original {a!r}, copy {b!r}',
+                   wit + pick + f'a, b = c05_call(fw, {lit}), c05_call(fc, {lit})\nassert a == b, (a, b)\n')
+      now = [c05_arg_sets(f) for f in fos]
+      d = diff_value(fresh, v)
+      rec.case(f'functor-copy/{family}/original-untouched', key, now == sets0 and not d,
+               d or f'argument sets of the original {sets0} -> {now} after rebinding the copy',
+               wit + f'c05_functors(r)[-1].rebind({metas[-1][1]["defaults"][0]}=7)\nassert_same({src}, v)\n'
+               f'assert [c05_arg_sets(f) for f in c05_functors(v)] == [c05_arg_sets(f) for f in c05_functors({src})]\n')
+  return rec.result()
+
+
+# -----------------------------------------------------------------------------
+# Other values whose behaviour rests on state outside their symbolic fields.
+# -----------------------------------------------------------------------------
+
+# (kind, [sources], [probes on x], [the same change on original and copy])
+STATEFUL = [
+    ('symbolized-class', ['C05Acc(2)', 'C05Acc(2, 3, scale=4)', 'C05Acc(0, scale=-1)'],
+     ['x.bump()', 'x.bump(2)', 'x.total', '(x.start, x.step, x.scale)', 'x.sym_init_args.step'],
+     ['x.rebind(step=5)', 'x.rebind(start=7, scale=2)']),
+    ('object-with-derived-state', ['C05Derived(3)', 'C05Derived(3, 4, items=[1, 2])', 'C05Derived(x=0, y=0)'],
+     ['x.prod()', 'x.sym_nondefault()', 'x.sym_missing()'],
+     ['x.rebind(y=5)', 'x.items.append(4)', "x.rebind({'items': [9]})"]),
+    ('compound', ['c05_leaf_of(3)', 'c05_leaf_of(3, m=2)'],
+     ['x.x', 'x.decomposed', 'x.sym_init_args.m'], ['x.rebind(n=10)', 'x.rebind(m=5)']),
+]
+STATEFUL_HOLDERS = [('stand-alone', '{e}', 'r'), ('dict', 'pg.Dict(k={e})', 'r.k'),
+                    ('list-in-object', 'C05Leaf([0, {e}])', 'r.x[1]'), ('tuple', 'pg.Dict(t=({e}, 1))', 'r.t[0]')]
+BOUND_DNAS = [('[(1, 0), 0.5, [0, 2]]', h) for h in ('', 'u', 'un', 'uc', 'umq', 'cn')] + [
+    ('[0, 0.25, [1, 0]]', 'ucm')]
+
+
+def drv_stateful_copies(tier, seed):
+  del seed
+  rec = Recorder(
+      'C05', 'copies of values with state derived from their fields (symbolized classes, _on_bound state, '
+             'compounds) and of DNAs bound to a search space behave like the original',
+      scope='3 kinds x 2-3 values x 4 holders (stand-alone, Dict, List in Object, tuple in Dict) x 12 ways to '
+            'copy (as for functors); oracle: the outcome of 3-5 probes (method results, derived attributes) is the '
+            'same on the copy, also after each of 2-3 changes applied to both (deep copies only); 7 bound DNAs '
+            '(with cloneable / non-cloneable user data on root / child, metadata) x 3 holders (quick: nested for a third) x copy.deepcopy, '
+            'copy.copy, pg.clone, v.clone(deep=True) and the copy of the copy: still bound at every node, same '
+            'numbers / values by decision point, user data marked cloneable is kept (and kept again by the copy '
+            'of the copy); pickle / JSON do not carry the binding (see drv_geno_dna) and are not asked for it')
+  for kind, srcs, probes, changes in STATEFUL:
+    for si, e in enumerate(srcs):
+      for hi, (hname, tpl, get) in enumerate(STATEFUL_HOLDERS):
+        src = tpl.format(e=e)
+        head = f'import copy, pickle\n{_header("C05")}v = {src}\n'
+        getv = get.replace('r', 'v', 1)
+        for mi, (family, method, code, deep) in enumerate(FUNCTOR_COPIES):
+          if tier != 'thorough' and hi and (si + hi + mi) % 3:
+            continue
+          key = (src, method)
+          wit = head + code + f'\nxo, xc = {getv}, {get}\n'
+          pre = f'stateful-copy/{family}/{kind}'
+          try:
+            v = ev(src)
+            env = dict(_ENV, v=v, copy=copy, pickle=pickle)
+            exec(code, env)  # pylint: disable=exec-used
+            r = env['r']
+            xo, xc = eval(getv, dict(v=v)), eval(get, dict(r=r))  # pylint: disable=eval-used
+          except Exception as ex:  # pylint: disable=broad-except
+            rec.case(f'{pre}/copy-is-made', key, False, f'{type(ex).__name__}: {ex}', wit)
+            continue
+          d = diff_value(v, r) or ('' if outcome(pg.eq, v, r) == ('ok', True) else 'pg.eq(v, r) is not True')
+          if not rec.case(f'{pre}/value', key, not d and type(xo) is type(xc), d or 'type differs',
+                          wit + 'assert_same(v, r)\nassert pg.eq(v, r)\n'):
+            continue
+          te = tree_errors(r)
+          rec.case(f'{pre}/well-formed-tree', key, not te, '; '.join(te[:3]), wit + 'assert_wellformed(r)\n')
+
+          def probe_all(stage, pre=pre, key=key, wit=wit, xo=xo, xc=xc):
+            for p in probes:
+              a = outcome(eval, p, dict(x=xo))  # pylint: disable=eval-used
+              b = outcome(eval, p, dict(x=xc))  # pylint: disable=eval-used
+              same = a[0] == b[0] and (diff_value(a[1], b[1]) == '' if a[0] == 'ok' else a[1] is b[1])
+              rec.case(f'{pre}/{"probes" if not stage else "probes-after-the-same-change"}', key + (stage, p),
+                       same, f'[{stage or "as copied"}] {p}: original {a!r}, copy {b!r}',
+                       wit + (f'for x in (xo, xc):\n  {stage}\n' if stage else '')
+                       + f'a, b = [outcome(lambda: {p}) for x in (xo, xc)]\n'
+                       'assert a[0] == b[0] and (a[0] == "exc" or not diff_value(a[1], b[1])), (a, b)\n')
+          probe_all('')
+          if deep:
+            for ch in changes:
+              a = outcome(eval, ch, dict(x=xo))[0]  # pylint: disable=eval-used
+              b = outcome(eval, ch, dict(x=xc))[0]  # pylint: disable=eval-used
+              if rec.case(f'{pre}/change-accepted-alike', key + (ch,), a == b, f'{ch}: original {a}, copy {b}',
+                          wit + f'a, b = [outcome(lambda: {ch})[0] for x in (xo, xc)]\nassert a == b, (a, b)\n'):
+                probe_all(ch)
+  # DNAs bound to a search space.
+  ways = [c for c in FUNCTOR_COPIES if c[0] in ('deepcopy', 'clone')]
+  for di, (values, hist) in enumerate(BOUND_DNAS):
+    e = f'c05_bound_dna({values}, {hist!r})'
+    for hi, (hname, tpl, get) in enumerate(STATEFUL_HOLDERS[:3]):
+      if hi and tier != 'thorough' and (di + hi) % 3:
+        continue
+      src = tpl.format(e=e)
+      head = f'import copy\n{_header("C05")}v = {src}\n'
+      getv = get.replace('r', 'v', 1)
+      v = rec.guard('harness/bound-dna-universe', src, lambda src=src: ev(src), head)
+      if v is False:
+        continue
+      for family, method, code, deep in ways:
+        if hi and not deep:
+          continue        # (a shallow copy of a holder is not asked to copy what it holds.)
+        for generations in (1, 2):
+          key = (src, method, generations)
+          code_n = code + ('' if generations == 1 else '\nfirst = r\n' + code.replace('(v', '(first').replace('v.', 'first.'))
+          wit = head + code_n + f'\na, b = c05_dna_view({getv}), c05_dna_view({get})\n'
+          gen = 'copy' if generations == 1 else 'copy-of-the-copy'
+          try:
+            env = dict(_ENV, v=v, copy=copy)
+            exec(code_n, env)  # pylint: disable=exec-used
+            r = env['r']
+            a = c05_dna_view(eval(getv, dict(v=v)))  # pylint: disable=eval-used
+            b = c05_dna_view(eval(get, dict(r=r)))   # pylint: disable=eval-used
+          except Exception as ex:  # pylint: disable=broad-except
+            rec.case(f'bound-dna-copy/{family}/copy-is-made', key, False, f'{type(ex).__name__}: {ex}', wit)
+            continue
+          for aspect, names in (('stays-bound-to-its-space', ('bound', 'numbers', 'by_name', 'literal')),
+                                ('cloneable-user-data', ('userdata',))):
+            bad = [n for n in names if a[n] != b[n]]
+            rec.case(f'bound-dna-copy/{family}/{gen}/{aspect}', key, not bad,
+                     '; '.join(f'{n}: {a[n]!r} -> {b[n]!r}' for n in bad),
+                     wit + f'assert all(a[n] == b[n] for n in {names!r}), (a, b)\n')
+  return rec.result()
+
+
 DRIVERS = [drv_json_values, drv_typed_objects, drv_loader_options, drv_writer_options,
            drv_same_name_symbols, drv_specs,
            drv_geno_dna,
-           drv_file_systems, drv_sequences, drv_pickle_deepcopy]
+           drv_file_systems, drv_sequences, drv_pickle_deepcopy, drv_functor_copies,
+           drv_stateful_copies]
 
 
 def replay(rec):
